@@ -31,7 +31,7 @@ TOL_VB = 1e-6  # BZ-limited: with origin states the package takes the bare bias 
                # the model from an exact pseudo-inverse; observed 2e-8 (2D) / 1e-10 (3D) on data where both are right
 
 QUICK = [('FCC', 0, 1), ('BCC', 0, 1), ('HCP', 0, 1), ('SQUARE', 0, 1), ('HONEY', 0, 1), ('OMEGA', 0, 1),
-         ('FCC', 0, 2), ('SC', 0, 2), ('RECTM', 0, 1), ('OBLIQUE', 1, 1), ('MONO', 2, 1)]
+         ('FCC', 0, 2), ('SC', 0, 2), ('RECTM', 0, 1), ('RECTMX', 0, 1), ('OBLIQUE', 1, 1), ('MONO', 2, 1)]
 THOROUGH = QUICK + [('SC', 0, 1), ('DIAMOND', 0, 1), ('TET', 1, 1), ('TRIA', 0, 1), ('ROMEGA', 0, 1), ('B2', 0, 1), ('NBO', 0, 1),
                     ('HCP15', 1, 1), ('FCC', 1, 1), ('KAGOME', 0, 1), ('L12', 0, 1), ('WURTZ2', 0, 1),
                     ('BCC', 0, 2), ('HCP', 0, 2), ('SQUARE', 0, 2), ('HONEY', 0, 2), ('OMEGA', 0, 2),
@@ -39,7 +39,7 @@ THOROUGH = QUICK + [('SC', 0, 1), ('DIAMOND', 0, 1), ('TET', 1, 1), ('TRIA', 0, 
 TORUS = {'FCC': (5, 5, 5), 'BCC': (5, 5, 5), 'HCP': (5, 5, 5), 'SQUARE': (7, 7), 'HONEY': (5, 5), 'OMEGA': (5, 5, 7),
          'ROMEGA': (5, 5, 7), 'B2': (5, 5, 5), 'SC': (5, 5, 5), 'DIAMOND': (5, 5, 5), 'TET': (5, 5, 5), 'TRIA': (7, 7),
          'RECTM': (5, 5), 'NBO': (5, 5, 5), 'HCP15': (5, 5, 5), 'KAGOME': (5, 5), 'L12': (5, 5, 5), 'WURTZ2': (5, 5, 5),
-         'OBLIQUE': (7, 7), 'MONO': (5, 5, 5), 'TRIC': (5, 5, 5), 'P1': (5, 5, 5)}
+         'OBLIQUE': (7, 7), 'RECTMX': (5, 5), 'MONO': (5, 5, 5), 'TRIC': (5, 5, 5), 'P1': (5, 5, 5)}
 CHUNK_NODES = 24
 
 
